@@ -30,6 +30,11 @@ CHECKS = {
    technique="exhaustive single-fault enumeration on the storage seam: every bit flip, truncation, extension, substitution, read error offset and chunking of every block × 4 load functions; every failing Write call, accessor failure, opener and commit error on Store",
    text="For each stored block every listed corruption/fault is injected through the real StorageReadOpener/WriteOpener seam; a non-error return must imply the served bytes hash to the link, mismatches must win over decode errors, I/O errors must surface, and Store must never commit after a failed write or encode.",
    note="Trusted: the harness's recomputation of the hash of served bytes. A reader returning (0,nil) is checked for safety only, not availability."),
+ "C07": dict(
+   category="model_checking", design_ref="DESIGN.md §5 C07",
+   technique="bounded-exhaustive enumeration of selector ASTs (≤3/4 clauses + targeted union/recursion families) × block graphs (≤4/5 nodes, every cut into blocks, dangling/shared links), each walked by the real WalkAdv/WalkMatching and compared with an independent substitution-style reference denotation",
+   text="Every (selector, graph) pair in the bound is compiled by the real parser and walked over real blocks stored in a real link system; the visit sequence (path, node content, reason), the link-load sequence and the matching-only walk must equal the reference denotation written by substitution from the documented semantics.",
+   note="Trusted: reference denotation mc/trav/refwalk.go. Known finding: one depth counter per merged union (known_findings.json). ExploreInterpretAs/ADL reification and conditions other than stop-at-link are outside the alphabet."),
 }
 
 NOT_YET = "check not built yet in this round (planned in DESIGN.md §5; will be claimed when its explorer exists)"
